@@ -4,6 +4,7 @@
 //! The same lines are fed to the Lean driver, which prints the model's outcome and the verdict of
 //! the property's executable oracle on the observed outcome.
 mod gen;
+mod io_script;
 mod suites;
 
 use std::io::Write;
